@@ -6,6 +6,7 @@ import c02
 
 CONFIGS = ['prod', 'testutils']
 EXPLANATION = (
+    'B11: on the transactional backends one Storage call is one transaction: the LMDB task submissions that open a write transaction and the SQLite execute_many are not inside a loop of the calling method. '
     'B10: the text form of the timestamp the SQLite backend stores and reads back — writer / reader agreement (arity, order, radix, accepted ranges) and purity (no clock read reachable from the parser) — C10.E3 / E8 re-evaluated. '
     'ST: the provided put_with_ctx / multi_put_with_ctx of the Storage trait, which all three bundled backends inherit, call the backend\'s own put / multi_put once with the caller\'s keyspace and documents and return its result unchanged. '
     'MSEM: every Storage method of the in-memory backend interpreted per (keyspace, key) abstract pre-state against the reference key-value model. '
@@ -474,3 +475,40 @@ def check(ctx):
     check_B7(ctx, prod)
     check_B8(ctx, prod)
     check_B9(ctx, prod)
+    check_B11(ctx, prod)
+
+
+def check_B11(ctx, facts):
+    """B11: one call of a bulk Storage method is ONE step of the reference model on the transactional backends: the write transaction that
+    carries it is begun once per call — the hand-over to the LMDB worker (a call that passes a closure which opens a write transaction) and
+    the SQLite `execute_many` are not inside a loop of the calling method.  (Round 7, C17g: bulk writes split into batches of 512, each its
+    own transaction — a reader between two batches, or a crash, sees half of the call applied.)"""
+    n = 0
+    bad = []
+    for b in facts.bodies.values():
+        if b.crate not in ('datacake_lmdb', 'datacake_sqlite') or b.d['promoted'] or b.cfg is None:
+            continue
+        for blk, t in b.calls():
+            cn = cname(t) or ''
+            is_tx = False
+            if b.crate == 'datacake_lmdb':
+                # a closure handed over in this call opens a write transaction
+                for _b, _s, cdef, _ops in closure_aggregates(b):
+                    cb = facts.bodies.get(cdef)
+                    if cb is not None and any((cname(t2) or '').endswith('::write_txn') for _x, t2 in cb.calls()):
+                        fl = Flow(b)
+                        if any(op_local(a) is not None and _s['lhs']['l'] in fl.backward([op_local(a)]) for a in t['args']) and cn.startswith('datacake_lmdb'):
+                            is_tx = True
+            else:
+                is_tx = cn.endswith('::execute_many')
+            if not is_tx:
+                continue
+            n += 1
+            succ = b.succ(blk)
+            if any(blk in b.reachable_from([s_]) for s_ in succ):
+                bad.append((b, t))
+    ctx.floor('C17.B11', 'bulk write hand-overs (LMDB task submissions that open a write transaction, SQLite execute_many)', n, 6)
+    ctx.ob('C17.B11', 'bulk|one-transaction-per-call', not bad, site(bad[0][0], bad[0][1]['cs']) if bad else '',
+           'every write transaction is begun once per Storage call (%d hand-over sites, none inside a loop)' % n if not bad else
+           '%s begins a write transaction inside a loop: one bulk call is applied in several transactions — a concurrent reader (or a crash) between two of them sees part of '
+           'the call applied, which no state of the reference key-value model matches' % last_seg(bad[0][0].name.replace('::{closure#0}', '')))
